@@ -1028,7 +1028,7 @@ Proof. intros Hin. unfold has_param. destruct (get_param_of_In _ _ Hin) as (p' &
 
 Lemma compat_b_sound s P' : compat_b s P' = true -> same_denoms (st_params s) P' /\ covers s P'.
 Proof.
-  unfold compat_b. intros H. apply andb_true_iff in H. destruct H as [H H3]. apply andb_true_iff in H. destruct H as [H1 H2].
+  unfold compat_b, same_denoms_b. intros H. apply andb_true_iff in H. destruct H as [H H3]. apply andb_true_iff in H. destruct H as [H1 H2].
   rewrite forallb_forall in H1, H2, H3. split.
   - intros d. split; intros Hn.
     + destruct (get_param P' d) as [p'|] eqn:E; [|reflexivity]. exfalso.
